@@ -8,7 +8,7 @@ git -C /repo worktree add -q --detach $M ${BASE:-HEAD} || exit 3
 echo "== demo on clean worktree"; (bash $MD/demo/run.sh $M >/tmp/es-$$-clean.log 2>&1; echo "demo_clean_exit=$?")
 cd $M && git apply "$MD/patch.diff" || { echo "PATCH DOES NOT APPLY"; cd /; git -C /repo worktree remove --force $M; exit 3; }
 echo "== repo tests on patched worktree"
-CARGO_TARGET_DIR=/var/tmp/dm-target cargo test --workspace --offline --no-fail-fast 2>&1 | grep -E "^test result|FAILED|^error" | sort | uniq -c | head
+CARGO_TARGET_DIR=${DMT:-/var/tmp/dm-target} cargo test --workspace --offline --no-fail-fast 2>&1 | grep -E "^test result|FAILED|^error" | sort | uniq -c | head
 echo "== demo on patched worktree"; (bash $MD/demo/run.sh $M >/tmp/es-$$-patched.log 2>&1; echo "demo_patched_exit=$?"; tail -3 /tmp/es-$$-patched.log | cut -c1-200)
 for c in "$@"; do
   echo "== check $c on patched worktree"
